@@ -22,6 +22,7 @@ UBITS = {'bool': 1, 'unsigned char': 8, 'unsigned short': 16, 'unsigned int': 32
          'unsigned long long': 64}
 SBITS = {'signed char': 8, 'char': 8, 'short': 16, 'int': 32, 'long': 64, 'long long': 64}
 MAX_STATES = 400
+VECTOR_MAX_SIZE = (1 << 63) - 1      # upper bound of std::vector<T>::max_size() on LP64
 
 
 def btype(t):
@@ -72,6 +73,7 @@ class St:
         self.regions = {}
         self.nul = {}          # region -> list of Lin offsets known to hold '\0'
         self.ftypes = {}       # (obj, field) -> declared type (for re-creating havocked fields)
+        self.cells = {}        # (region, offset key) -> stored value (pointers kept in arrays)
         self.status = 'normal'
         self.ret = None
         self.trail = []        # human readable branch decisions
@@ -84,6 +86,7 @@ class St:
         s.regions = dict(self.regions)
         s.nul = {k: list(v) for k, v in self.nul.items()}
         s.ftypes = dict(self.ftypes)
+        s.cells = dict(self.cells)
         s.status = self.status
         s.ret = self.ret
         s.trail = list(self.trail)
@@ -407,6 +410,9 @@ class Engine:
                                                    func.loc(node) if func else '', ''))
             else:
                 self.access(st, lv[1], 1, 'element', node, func, write=False)
+                cell = st.cells.get((lv[1].region, lv[1].off.key()))
+                if cell is not None:
+                    return cell
             return self.fresh('elem', st, t) if btype(t) in UBITS or btype(t) in SBITS else UNKNOWN
         return UNKNOWN
 
@@ -440,6 +446,11 @@ class Engine:
                                                    func.loc(node) if func else '', ''))
                 return
             self.access(st, lv[1], 1, 'element', node, func, write=True)
+            # a write to the region invalidates every remembered cell of it (may alias), then remember this one
+            for key in [k for k in st.cells if k[0] == lv[1].region]:
+                del st.cells[key]
+            if isinstance(v, (Ptr, Obj)):
+                st.cells[(lv[1].region, lv[1].off.key())] = v
             if isinstance(v, Lin) and v.is_const() and v.c == 0:
                 self.add_nul(st, lv[1].region, lv[1].off)
 
@@ -824,6 +835,20 @@ class Engine:
             r = model(self, n, st, func, want)
             if r is not None:
                 return r
+        # copy / move construction of a modelled object: a new object with a copy of the model state
+        if k in ('CXXConstructExpr', 'CXXTemporaryObjectExpr') and model is None:
+            real = [a for a in kids if not a.get('defarg')]
+            ctor_cls = n.get('cclass')
+            if len(real) == 1 and ctor_cls and btype((real[0].get('t') or '')) == ctor_cls:
+                out = []
+                for v, s1 in self.ev(real[0], st, func):
+                    if isinstance(v, Obj):
+                        name = 'copy@%s#%d' % (n['id'], next(self.counter))
+                        self.clone_obj(s1, v.name, name)
+                        out.append((Obj(name, v.kind), s1))
+                    else:
+                        out.append((v, s1))
+                return out
         # repository function with a body: inline
         tgt = self.prog.by_key.get(n.get('ckey'))
         if tgt and tgt[0].body is not None and self.depth < self.cfg.get('inline_depth', 5) and \
@@ -833,6 +858,31 @@ class Engine:
                 return [(Obj(name, btype(n.get('t'))), s1) for s1 in self.construct(n, tgt[0], st, func, name)]
             return self.inline(n, tgt[0], st, func)
         return self.opaque_call(n, st, func)
+
+    def clone_obj(self, st, src, dst):
+        """dst becomes a copy of the modelled object src (fields, sub-objects, regions)"""
+        def ren(name):
+            if name == src:
+                return dst
+            if isinstance(name, str) and name.startswith(src + '.'):
+                return dst + name[len(src):]
+            return None
+        for (o, f), v in list(st.fields.items()):
+            o2 = ren(o)
+            if o2 is not None:
+                if isinstance(v, Obj) and ren(v.name):
+                    v = Obj(ren(v.name), v.kind)
+                elif isinstance(v, Ptr) and ren(v.region):
+                    v = Ptr(ren(v.region), v.off)
+                st.fields[(o2, f)] = v
+                if (o, f) in st.ftypes:
+                    st.ftypes[(o2, f)] = st.ftypes[(o, f)]
+        for r, size in list(st.regions.items()):
+            if ren(r):
+                st.regions[ren(r)] = size
+        for r, z in list(st.nul.items()):
+            if ren(r):
+                st.nul[ren(r)] = list(z)
 
     def inlineable(self, f):
         pats = self.cfg.get('inline', ())
@@ -977,7 +1027,9 @@ class Engine:
                             if ft:
                                 v = self.convert(c1, v, ft)
                                 c1.ftypes[('this', ini['name'])] = ft
-                        c1.fields[('this', ini['name'])] = v
+                        if not isinstance(v, Unknown):
+                            c1.fields[('this', ini['name'])] = v
+                        # an unmodelled member constructor: the member object is created lazily on first use
                         nxt.append(c1)
             elif ini.get('kind') == 'base' and init.get('k') == 'CXXConstructExpr':
                 bt = self.prog.by_key.get(init.get('ckey'))
@@ -1135,6 +1187,15 @@ class Engine:
                                 s1.vars[d['name']] = Obj('local.' + d['name'], btype(d.get('t')))
                                 nxt.append(s1)
                             continue
+                    if isinstance(ini, dict) and ini.get('k') == 'CXXConstructExpr' and \
+                            btype(d.get('t')).startswith(('std::vector<', 'std::deque<', 'std::list<')):
+                        real = [a for a in children(ini) if not a.get('defarg')]
+                        oname = 'local.' + d['name']
+                        if not real:
+                            s.fields[(oname, 'size')] = lin(0)          # default constructed: empty
+                        s.vars[d['name']] = Obj(oname, btype(d.get('t')))
+                        nxt.append(s)
+                        continue
                     if isinstance(d.get('init'), dict):
                         for v, s1 in self.ev(d['init'], s, func):
                             if isinstance(v, Lin):
@@ -1312,6 +1373,25 @@ class Engine:
                             self.root, 'wrap', 'start value of loop variable %s is not a wrapped unsigned expression' % v,
                             not w, func.loc(n), '' if not w else '%s on the path [%s]' % (w[0], '; '.join(s0.trail[-6:]))))
 
+        # range-for over a container of known (symbolic) size: ghost iteration counter and
+        # variables that are incremented exactly once per iteration (lock-step counters)
+        rf_size = {}
+        lockstep = []
+        if k == 'CXXForRangeStmt' and not peel:
+            body_kids = children(body) if body.get('k') == 'CompoundStmt' else [body]
+            for bk in body_kids:
+                b0 = strip_all_casts(bk)
+                tgt = None
+                if b0.get('k') == 'UnaryOperator' and b0.get('op') == '++':
+                    tgt = strip_all_casts(children(b0)[0])
+                elif b0.get('k') == 'CompoundAssignOperator' and b0.get('op') == '+=' and \
+                        children(b0)[1].get('cv') == 1:
+                    tgt = strip_all_casts(children(b0)[0])
+                if tgt is not None and tgt.get('k') == 'DeclRefExpr':
+                    nm = tgt['ref']['name']
+                    if incs.get(nm) == 1 and not decs.get(nm):
+                        lockstep.append(nm)
+
         def one_iteration(start_states, assume_cond):
             """runs cond (if assume_cond) + body + inc from the given head states; returns
             (states at the end of the iteration, states that left the loop at the condition)"""
@@ -1319,7 +1399,18 @@ class Engine:
             if k == 'CXXForRangeStmt':
                 bs = []
                 for h0 in start_states:
-                    exits.append(h0.copy())
+                    ex = h0.copy()
+                    info = rf_size.get(id(h0))
+                    if info:
+                        ex.assume(eq(info[0], info[1]))
+                        if ex.ok():
+                            exits.append(ex)
+                        h0 = h0.copy()
+                        h0.assume(le(info[0], info[1] - 1))
+                        if not h0.ok():
+                            continue
+                    else:
+                        exits.append(ex)
                     for b0 in (self.stmt(kids[1], [h0.copy()], func) if isinstance(kids[1], dict) else [h0.copy()]):
                         lv = kids[1]['decls'][0]['name'] if kids[1] and kids[1].get('decls') else None
                         if lv:
@@ -1376,25 +1467,48 @@ class Engine:
             mono = []
             for v in vars_:
                 old = s.vars.get(v)
+                refd = None
+                if isinstance(old, tuple) and old and old[0] == 'ref':
+                    refd = old[1]
+                    old = self.load(refd, s, n, func, self.var_type(func, v, n))
                 if isinstance(old, Lin):
                     nv = self.fresh(v, head, None)
-                    head.vars[v] = nv
+                    if refd is not None:
+                        self.store(refd, nv, head, n, func)
+                    else:
+                        head.vars[v] = nv
                     if incs.get(v) and not decs.get(v):
                         head.assume(ge(nv, old))
                         mono.append((v, 'inc', old))
                     elif decs.get(v) and not incs.get(v):
                         head.assume(le(nv, old))
                         mono.append((v, 'dec', old))
-                elif isinstance(old, Ptr):
+                elif isinstance(old, Ptr) and refd is None:
                     head.vars[v] = Ptr(old.region, self.fresh(v + '.off', head, None))
-                elif v in head.vars:
+                elif v in head.vars and refd is None:
                     head.vars[v] = UNKNOWN
+            it_sym = None
+            if k == 'CXXForRangeStmt' and not peel:
+                rng = self.ev(kids[0], s.copy(), func)
+                rv = rng[0][0] if rng else None
+                size = self.size_of(head, rv)
+                if size is not None:
+                    it_sym = self.fresh('iter', head, None)
+                    head.assume(ge(it_sym, 0), le(it_sym, size))
+                    rf_size[id(head)] = (it_sym, size)
+                    for nm in lockstep:
+                        v0 = self.vv(s, nm, func, n)
+                        cur_v = self.vv(head, nm, func, n)
+                        if isinstance(v0, Lin) and isinstance(cur_v, Lin):
+                            head.assume(eq(cur_v, v0 + it_sym))
             self.havoc_fields(head, fields, havoc_this)
             for v in vars_:
                 if v.startswith('obj:'):
                     for key in list(head.fields):
-                        if key[0] == v[4:] and isinstance(head.fields[key], Lin):
+                        if key[0].startswith(v[4:]) and isinstance(head.fields[key], Lin):
                             head.fields[key] = self.fresh('%s.%s' % key, head, head.ftypes.get(key))
+                            if key[1] in ('size', 'length'):
+                                head.assume(ge(head.fields[key], 0), le(head.fields[key], 1 << 60))
             hook = self.cfg.get('loop_havoc')
             if hook:
                 hook(self, head, func, n)
@@ -1403,8 +1517,8 @@ class Engine:
                 head.assume(*goals)
             for v in vars_:
                 t = self.var_type(func, v, n)
-                if t and isinstance(head.vars.get(v), Lin):
-                    self.type_range(head, head.vars[v], t)
+                if t and isinstance(self.vv(head, v, func, n), Lin):
+                    self.type_range(head, self.vv(head, v, func, n), t)
             # candidate bound for increasing unsigned counters: i <= 2^63 at the head; kept only if it is
             # inductive (holds on entry and is re-established by one iteration), otherwise the iteration is
             # analysed again without it
@@ -1416,8 +1530,10 @@ class Engine:
                     cand.append(v)
             mark_obl, mark_out = len(self.obligations), len(out)
             tentative = head.copy()
+            if id(head) in rf_size:
+                rf_size[id(tentative)] = rf_size[id(head)]
             for v in cand:
-                tentative.assume(le(tentative.vars[v], 1 << 63))
+                tentative.assume(le(self.vv(tentative, v, func, n), 1 << 63))
 
             def run(h):
                 if k == 'DoStmt':
@@ -1428,8 +1544,8 @@ class Engine:
                     return one_iteration(starts, False)
                 return one_iteration([h], True)
             after, exits = run(tentative if cand else head)
-            if cand and not all(entails(a.cons, le(a.vars[v], 1 << 63)) for a in after if a.status == 'normal'
-                                for v in cand if isinstance(a.vars.get(v), Lin)):
+            if cand and not all(entails(a.cons, le(self.vv(a, v, func, n), 1 << 63)) for a in after
+                                if a.status == 'normal' for v in cand if isinstance(self.vv(a, v, func, n), Lin)):
                 del self.obligations[mark_obl:]
                 del out[mark_out:]
                 after, exits = run(head)
@@ -1441,7 +1557,7 @@ class Engine:
                     for desc, goals in self.loop_invariants(a, func, n):
                         self.oblige(a, goals, 'invariant', '%s is preserved by one loop iteration' % desc, n, func)
                     for v, direction, _old in mono:
-                        nv = a.vars.get(v)
+                        nv = self.vv(a, v, func, n)
                         wrapped = isinstance(nv, Lin) and any(str(x).startswith('wrap<') for x in nv.syms())
                         self.obligations.append(Obligation(
                             self.root, 'wrap', 'loop counter %s does not wrap around' % v, not wrapped,
@@ -1457,6 +1573,35 @@ class Engine:
                         if not truth:
                             out.append(s1)
         return out
+
+    def size_of(self, st, v):
+        """symbolic element count of a modelled container / string value"""
+        if not isinstance(v, Obj):
+            return None
+        if (v.name, 'size') in st.fields:
+            return st.fields[(v.name, 'size')]
+        if (v.name, 'length') in st.fields:
+            return st.fields[(v.name, 'length')]
+        if 'vector' in v.kind or 'deque' in v.kind or 'list' in v.kind:
+            sz = self.named('%s.size()' % v.name, st, 'unsigned long')
+            st.assume(le(sz, 1 << 60))
+            st.fields[(v.name, 'size')] = sz
+            return sz
+        if 'basic_string' in v.kind or v.kind == 'std::string':
+            return self.string_len(st, v.name)
+        return None
+
+    def vv(self, st, name, func, node):
+        """current value of a local variable, looking through a reference binding"""
+        v = st.vars.get(name)
+        if isinstance(v, tuple) and v and v[0] == 'ref':
+            lv = v[1]
+            if lv[0] == 'var':
+                return st.vars.get(lv[1])
+            if lv[0] == 'field':
+                return st.fields.get((lv[1], lv[2]))
+            return None
+        return v
 
     def loop_invariants(self, st, func, loop):
         hook = self.cfg.get('loop_invariants')
@@ -1559,6 +1704,7 @@ class Engine:
 
     def bind_cstring(self, st, name):
         ln = self.named('strlen(%s)' % name, st, 'unsigned long')
+        st.assume(le(ln, 1 << 60))          # a string inside the address space
         st.regions[name] = ln + 1
         st.fields[(name, 'strlen')] = ln
         self.add_nul(st, name, ln)
@@ -1790,9 +1936,11 @@ def m_vector_method(eng, n, st, func, want):
                     size = lin(0)            # member of an object under construction
                 else:
                     size = eng.named('%s.size()' % ov.name, s1, 'unsigned long')
-                    s1.assume(le(size, 1 << 62))
+                    s1.assume(le(size, VECTOR_MAX_SIZE))
                 s1.fields[key] = size
-            if short == 'size':
+            if short == 'max_size':
+                out.append((lin(VECTOR_MAX_SIZE), s1))
+            elif short == 'size':
                 out.append((size, s1))
             elif short == 'empty':
                 if want == 'length':
@@ -1804,8 +1952,11 @@ def m_vector_method(eng, n, st, func, want):
                 nv = vals[0] if vals and isinstance(vals[0], Lin) else eng.fresh('size', s1, 'unsigned long')
                 if isinstance(vals[0] if vals else None, tuple):
                     nv = eng.float_to_int(s1, vals[0], 'unsigned long')
-                s1.fields[key] = nv
-                out.append((UNKNOWN, s1))
+                # resize( n) with n > max_size() throws std::length_error: the normal continuation has n <= max
+                s1.assume(le(nv, VECTOR_MAX_SIZE))
+                if s1.ok():
+                    s1.fields[key] = nv
+                    out.append((UNKNOWN, s1))
             elif short == 'clear':
                 s1.fields[key] = lin(0)
                 out.append((UNKNOWN, s1))
@@ -1888,7 +2039,6 @@ DEFAULT_MODELS = {
     'std::min': m_min, 'std::max': m_max,
     'std::basic_string<char>::*': m_string_method,
     'std::basic_string<char, std::char_traits<char>, std::allocator<char>>::*': m_string_method,
-    'std::vector<bool>::*': m_vector_method,
-    'std::vector<bool, std::allocator<bool>>::*': m_vector_method,
+    'std::vector<*': m_vector_method,
     'std::unique_ptr<*': m_unique_ptr,
 }
